@@ -45,7 +45,6 @@ type context struct {
 	resendTime    time.Duration     // tunable resend time
 	sendExpire    time.Duration     // how long to wait in send
 	receiveExpire time.Duration     // how long to wait in receive
-	sendTimer     *time.Timer       // send timer
 	receiveTimer  *time.Timer       // receive timer
 	resendTimer   *time.Timer       // resend timeout
 	reqMsg        *protocol.Message // message for transmit
@@ -223,10 +222,6 @@ func (c *context) cancel() {
 		c.resendTimer.Stop()
 		c.resendTimer = nil
 	}
-	if c.sendTimer != nil {
-		c.sendTimer.Stop()
-		c.sendTimer = nil
-	}
 	if c.receiveTimer != nil {
 		c.receiveTimer.Stop()
 		c.receiveTimer = nil
@@ -273,8 +268,12 @@ func (c *context) SendMsg(m *protocol.Message) error {
 	}
 
 	expired := false
+	var sendTimer *time.Timer
 	if c.sendExpire > 0 {
-		c.sendTimer = time.AfterFunc(c.sendExpire, func() {
+		// The timer belongs to this call only: cancel() (for example
+		// on behalf of a concurrent Recv that timed out) must not
+		// disarm it, or this Send would never return.
+		sendTimer = time.AfterFunc(c.sendExpire, func() {
 			s.Lock()
 			if c.sendMsg == m {
 				expired = true
@@ -292,6 +291,9 @@ func (c *context) SendMsg(m *protocol.Message) error {
 	// sending is canceled by a subsequent send.
 	for c.sendMsg == m && !expired && !c.closed && !(c.failNoPeers && len(s.pipes) == 0) {
 		c.cond.Wait()
+	}
+	if sendTimer != nil {
+		sendTimer.Stop()
 	}
 	if c.sendMsg == m {
 		c.cancelSend()
